@@ -252,7 +252,11 @@ class HUpdate(Harness):
         rng = np.random.RandomState(3)
         N = 6
         fl = type("FL", (), {})()
-        fl.X = rng.uniform(-1, 1, size=(N, D)); fl.Y = rng.uniform(0, 4, size=(N, 1)); fl.S = np.full((N, 1), 0.5)
+        fl.X = rng.uniform(-1, 1, size=(N, D)); fl.Y = rng.uniform(0, 4, size=(N, 1))
+        fl.S = sym_array(eng, "S", (N, 1))      # logged SDs: arbitrary positive reals (small ones included)
+        if not eng.concrete:
+            for v in _raw(fl.S).ravel():
+                eng.assume(z3.And(v.e > 0, v.e <= 16))
         fl.X_max_idx, fl.noise_flag = N - 1, noise
         calls = []
 
@@ -304,4 +308,13 @@ class HUpdate(Harness):
             if failed:
                 out.ob("failed_update_restores_previous_model", g2.priors == old_pr and np.array_equal(g2.hyp, old_h))
             out.ob("training_set_is_logged_data", g2.X.shape[0] == g2.y.shape[0] and all(any(np.array_equal(r, x) for x in fl.X) for r in g2.X))
+            if noise:
+                # the noise handed to the GP is the logged SD squared of the very row it accompanies
+                s2v = np.asarray(_raw(g2.s2)).reshape(-1)
+                Sv = np.asarray(_raw(fl.S)).reshape(-1)
+                cs = [s2v.shape[0] == g2.X.shape[0]]
+                for i_, r in enumerate(np.asarray(g2.X, dtype=float)):
+                    j_ = [j for j in range(N) if np.array_equal(r, fl.X[j])]
+                    cs.append(len(j_) == 1 and i_ < s2v.shape[0] and O.eq(s2v[i_], Sv[j_[0]] * Sv[j_[0]], 0.0))
+                out.ob("training_noise_is_logged_sd_squared", O.And(*cs))
         return out
